@@ -96,6 +96,19 @@ def check_complex(S, cap):
         except Exception as e:  # noqa: BLE001
             bad("boundary-raises", f"boundary_matrix raised {type(e).__name__}: {e}", o)
             continue
+        # the same assignment given with other value types (the docstring documents bools; numpy scalars arise when the
+        # assignment comes out of an array): the matrices must not depend on the type that spells 0 / 1
+        if ori is not None:
+            for vt in (bool, np.int64, np.bool_):
+                typed = {e: vt(v) for e, v in ori.items()}
+                try:
+                    for k in range(0, dim + 2):
+                        Bt = np.asarray(xgi.boundary_matrix(S, k, orientations=typed))
+                        if not np.array_equal(Bt, Bs[k][0]):
+                            bad("orientation-type", f"boundary_matrix(order={k}) with {vt.__name__}-valued orientations "
+                                f"{typed} = {Bt.tolist()}, with int values {Bs[k][0].tolist()}", o)
+                except Exception as e:  # noqa: BLE001
+                    bad("boundary-raises", f"boundary_matrix with {vt.__name__}-valued orientations raised {type(e).__name__}: {e}", o)
         for k in range(1, dim + 2):
             B, rd, cd = Bs[k]
             cols = [e for e, m in mem.items() if len(m) == k + 1]
@@ -184,7 +197,7 @@ def run(tier, ev):
     ev.cov["rule"] = (f"every simplicial complex on <=4 labelled vertices (thorough: also all on 5 vertices) x label kinds "
                       f"(ints, strings, mixed int/str, explicit int+string simplex IDs, reversed insertion) x orientation "
                       f"assignments (default None, all 2^k when k <= {_CAP} oriented simplices, otherwise all-0/all-1/parity/"
-                      f"single flips) x every order 0..dim+1; a case is one (complex, labelling, orientation)")
+                      f"single flips), each spelt with int, bool, numpy.int64 and numpy.bool_ values, x every order 0..dim+1; a case is one (complex, labelling, orientation)")
     res = explore.parallel_map(_work, items, env.nproc())
     viols = []
     n = 0
